@@ -204,6 +204,39 @@ impl C19 {
         }
     }
 
+    /// Rules with long / deep conditions, one case per child process: a worker thread that
+    /// overflows its stack takes the whole process down, which only another process can observe.
+    fn explore_deep(&self, cli: &Cli, st: &mut Stats) {
+        let per = cli.n(3, 40);
+        let schedules = 2u32;
+        shards(cli, cli.threads, st, |_shard, rng, st| {
+            for _ in 0..per {
+                if cli.expired() {
+                    break;
+                }
+                let c = gen_deep_case(rng, schedules);
+                let j = c.to_json();
+                st.eval();
+                st.count("deep_condition_cases_run_in_a_child_process");
+                st.max("max::leaves_in_one_condition_chain", 96);
+                match run_case_in_child(&j, 60, Some(4 << 30)) {
+                    Ok(vs) => {
+                        if vs.is_empty() {
+                            st.nontrivial(hash_of(&j.to_string()));
+                        }
+                        for v in vs {
+                            st.violation(v);
+                        }
+                    }
+                    Err(o) => match death_to_violation("C19", &j, &o, 60) {
+                        Ok(v) => st.violation(v),
+                        Err(why) => st.inconclusive(why),
+                    },
+                }
+            }
+        });
+    }
+
     fn explore_sanitizers(&self, cli: &Cli, st: &mut Stats) {
         let root = cli.root.clone();
         let seeds = cli.n(1, 48).max(2) as u32;
@@ -266,7 +299,7 @@ impl Check for C19 {
         "C19"
     }
     fn rule(&self) -> String {
-        "EXHAUSTIVE grid: every (n rules on one salience level, n in 1..=24) x max_threads 1..=16 x min_rules_per_thread 1..=4 with one generated rule set per cell, 2 schedules each. SAMPLED: random rule sets of 1..=24 rules (conditions: int/string/bool field vs literal of the same type under && / || / ! to depth 3 over 12 fields, flat and nested, fields missing in some cases; salience pools with ties incl. i32::MIN/MAX; 1 in 8 rules disabled; actions Set/Log/custom writing only Out.* keys that no condition reads), max_threads 1..=16, min_rules_per_thread 1..=4; in one case in four the ParallelRuleEngine of every call has just executed a DIFFERENT knowledge base of the same name and version (same rule names, neighbouring rule's body, inverted enabled flags); one third of the cases are written as GRL text and parsed by the real parser (case skipped and counted if the parser does not return the rules as written). Every case: one run with parallelism off (the engine's one-by-one path) and 4 (quick) / 8 (thorough) runs with parallelism on under seeded yields/sleeps at the library's schedule points; each run checked for: Ok result, every enabled rule exactly once in execution_contexts and no other, total_rules_evaluated == number of enabled rules, total_rules_fired == number of fired contexts, fired flag == reference verdict where defined, no lower-salience rule before a higher one; parallel vs one-by-one: same fired set, same counts. A case is non-trivial when at least one rule fired, at least one did not and some salience level held 2 or more rules; distinct by case. Thorough adds Miri many-seeds (48 scheduler seeds x 6 small cases) and a ThreadSanitizer build (8 processes x 400 cases x 4 schedules).".into()
+        "EXHAUSTIVE grid: every (n rules on one salience level, n in 1..=24) x max_threads 1..=16 x min_rules_per_thread 1..=4 with one generated rule set per cell, 2 schedules each. SAMPLED: random rule sets of 1..=24 rules (conditions: int/string/bool field vs literal of the same type under && / || / ! to depth 3 over 12 fields, flat and nested, fields missing in some cases; salience pools with ties incl. i32::MIN/MAX; 1 in 8 rules disabled; actions Set/Log/custom writing only Out.* keys that no condition reads), max_threads 1..=16, min_rules_per_thread 1..=4; in one case in four the ParallelRuleEngine of every call has just executed a DIFFERENT knowledge base of the same name and version (same rule names, neighbouring rule's body, inverted enabled flags); one third of the cases are written as GRL text and parsed by the real parser (case skipped and counted if the parser does not return the rules as written). Every case: one run with parallelism off (the engine's one-by-one path) and 4 (quick) / 8 (thorough) runs with parallelism on under seeded yields/sleeps at the library's schedule points; each run checked for: Ok result, every enabled rule exactly once in execution_contexts and no other, total_rules_evaluated == number of enabled rules, total_rules_fired == number of fired contexts, fired flag == reference verdict where defined, no lower-salience rule before a higher one; parallel vs one-by-one: same fired set, same counts. A case is non-trivial when at least one rule fired, at least one did not and some salience level held 2 or more rules; distinct by case. DEEP: 3 (quick) / 40 (thorough) cases per shard of 2..=16 rules on one salience level whose conditions are left-leaning chains of 12..=96 leaves under && or || (mostly true up to the deepest leaf), some under towers of `!`, each case judged in a child process of its own (a stack overflow in a worker thread kills the process). Thorough adds Miri many-seeds (48 scheduler seeds x 6 small cases) and a ThreadSanitizer build (8 processes x 400 cases x 4 schedules).".into()
     }
     fn assumptions(&self) -> Vec<String> {
         vec![
@@ -281,13 +314,26 @@ impl Check for C19 {
         let t0 = std::time::Instant::now();
         self.explore_native(cli, st);
         st.add("wall_ms_native_phase", t0.elapsed().as_millis() as u64);
+        self.explore_deep(cli, st);
         if cli.tier == Tier::Thorough {
             let t1 = std::time::Instant::now();
             self.explore_sanitizers(cli, st);
             st.add("wall_ms_sanitizer_phase", t1.elapsed().as_millis() as u64);
         }
     }
+    fn worker(&self, cli: &Cli, args: &[String]) -> i32 {
+        match args.first().map(|s| s.as_str()) {
+            Some("case") => worker_case_main(self, cli),
+            _ => 2,
+        }
+    }
     fn replay(&self, cli: &Cli, case: &Json) -> Vec<Violation> {
+        // a case with long condition chains may kill the process that runs it (stack overflow in a
+        // worker thread): outside a case child it is judged in one
+        let long_chain = case["rules"].as_array().map_or(false, |rs| rs.iter().any(|r| r["when"].to_string().len() > 2_000));
+        if long_chain && !in_case_child() {
+            return replay_via_child("C19", case, 60, Some(4 << 30));
+        }
         let bad = |why: &str| vec![Violation { clause: "harness".into(), sig: "C19|harness|bad-case".into(), detail: why.into(), case: case.clone() }];
         if let Some(k @ ("miri" | "tsan")) = case["kind"].as_str() {
             let args: Vec<String> = case["args"].as_array().map(|a| a.iter().filter_map(|x| x.as_str().map(|s| s.to_string())).collect()).unwrap_or_default();
@@ -312,7 +358,9 @@ impl Check for C19 {
         };
         sched::install(cli.seed, PERTURB_US);
         let c2 = c.clone();
-        let r = dlwatch::call_watched(move || find_failure(&c2, REPLAY_TRIES, None));
+        // (deep cases fail on every run or not at all; the schedule-dependent ones get the full retry budget)
+        let tries = if long_chain { 6 } else { REPLAY_TRIES };
+        let r = dlwatch::call_watched(move || find_failure(&c2, tries, None));
         sched::uninstall();
         match r {
             Ok(Some((clause, cause, detail))) => vec![violation(&clause, &cause, &detail, case.clone())],
